@@ -9,6 +9,9 @@ CLAIMED = {
  "C06": ("route table extraction from main.main SSA + reachability + guard-fact dataflow per (route, protected sink); reviewed mask table; CSRF / deny-list / CA-separation dominance rules",
          "For every service-mux route extracted at check time and every protected sink reachable from it, the credential fact required by the route's kind dominates the sink on all paths; admission masks equal a reviewed reference; every success return of checkAuth is preceded by the CSRF test; keymaster-signed chains pass the deny list and the role-CA separation. Structural, all paths, current source.",
          "Sink table and route-kind table are part of the trusted base (keyed by resolved objects, one reason each); new routes default to the strictest kind. Trusts crypto/tls and net/http.", "DESIGN.md §3 C06"),
+ "C02": ("field-store provenance of certificate templates reaching signing calls, value identity between validated and certified key, closure analysis of the extension mapper, signer/CA pairing by value identity",
+         "The SSH and X.509 templates that reach a signing call carry exactly the user parameter, the parsed submitted key, end-entity flags and (SSH) a fresh map of five standard extensions plus copies of the caller's; at the call sites the user argument is the authenticated name and the certified key is the very value read from the request and strength-checked; the extension mapper substitutes only USERNAME; signer and CA certificate are a pair. Structural provenance, all stores, current source.",
+         "Trusts x/crypto/ssh and crypto/x509 encoders. Certificate bytes are not inspected.", "DESIGN.md §3 C02"),
  "C03": ("symbolic bound dataflow: comparison facts on CFG edges + transitive <= prover (constants and SSA values, no concrete values); provenance of validity-field stores; lower-bound obligation at unsigned conversions",
          "At the three issuing calls of the certificate handler the duration is proven <= 24 h, <= time.Until(authInfo.IssuedAt+24 h) and >= 0 on every path; in every issuing library function the validity fields are now / now+D with D exactly the bounded parameter or a constant within the cap (45 d automation, 24 h cloud role); every duration-to-unsigned conversion is dominated by duration >= 0.",
          "Trusts time package semantics (Until, Add) and go/ssa. Bounds are symbolic, for all inputs; the clock is not modelled.", "DESIGN.md §3 C03"),
